@@ -2,7 +2,7 @@
    stoi stol stoll stoul stoull after the fix commits) implements C17 7.22.1.4 for EVERY character
    sequence: white space, sign, 0x / 0 prefixes with base 0 and 16, saturation at the limits of the
    result type, negation in the unsigned type — no excluded region. *)
-From Tetl Require Import Lib.Base C10.Model C10.Spec C10.Arith C10.Digits C10.ProofsParse.
+From Tetl Require Import Lib.Base C10.Model C10.Spec C10.Arith C10.Digits C10.ProofsParse C10.ProofsNc.
 From Coq Require Import ZifyBool.
 Local Open Scope Z_scope.
 Ltac Zify.zify_post_hook ::= Z.to_euclidean_division_equations.
@@ -55,70 +55,15 @@ Proof.
   f_equal. f_equal. lia.
 Qed.
 
-(* the widths of the C++ integer types on the modelled platform (below int: promoted to int) *)
-Definition cxx_width (w : Z) : Prop := 8 <= w <= 16 \/ 32 <= w.
-
-(* unchecked accumulation: unsigned wrap-around at >= 32 bits; below int the product is computed
-   in int and value < 2^16, base <= 36 keeps it far from INT_MAX *)
-Lemma accumulate_nc_ok ut base v d : sgn ut = false -> cxx_width (bits ut) -> 2 <= base <= 36 ->
-  0 <= v < 2 ^ bits ut -> 0 <= d < base ->
-  exists v', accumulate_m ut base v d = Ok v' /\ 0 <= v' < 2 ^ bits ut.
-Proof.
-  intros Hs Hw Hb Hv Hd. unfold accumulate_m, parith, promote.
-  assert (Hrange : forall x, 0 <= cast ut x < 2 ^ bits ut).
-  { intros x. unfold cast, wrap_ty, wrapu. rewrite Hs. apply Z.mod_pos_bound.
-    apply pow2_pos. destruct Hw; lia. }
-  destruct Hw as [Hw|Hw].
-  - replace (bits ut <? 32) with true by lia. cbn [sgn i32].
-    pose proof (pow2_mono (bits ut) 16 ltac:(lia)) as Hm. change (2 ^ 16) with 65536 in Hm.
-    assert (H1 : in_ty i32 (v * base) = true).
-    { apply in_ty_iff. change (imin i32) with (-2147483648). change (imax i32) with 2147483647. nia. }
-    rewrite H1. cbn [rbind]. rewrite Hs.
-    assert (H2 : in_ty i32 (v * base + d) = true).
-    { apply in_ty_iff. change (imin i32) with (-2147483648). change (imax i32) with 2147483647. nia. }
-    rewrite H2. cbn [rbind]. eexists. split; [reflexivity|apply Hrange].
-  - replace (bits ut <? 32) with false by lia. rewrite Hs. cbn [rbind]. eexists. split; [reflexivity|apply Hrange].
-Qed.
-
-Lemma ti_loop_nc_end ut base : sgn ut = false -> cxx_width (bits ut) -> 2 <= base <= 36 ->
-  forall s pos v, 0 <= v < 2 ^ bits ut -> exists v',
-    ti_loop_nc ut base s pos v = Ok ((pos + length (take_digits base s))%nat, v').
-Proof.
-  intros Hs Hw Hb. assert (Hbits : 8 <= bits ut) by (destruct Hw; lia).
-  pose proof (imin_imax ut Hbits) as Hi.
-  induction s as [|c r IH]; intros pos v Hv; cbn [ti_loop_nc take_digits length].
-  - exists v. f_equal. f_equal. lia.
-  - destruct (char_digit c) as [d|] eqn:Ec.
-    + pose proof (char_digit_range c d Ec) as Hd.
-      rewrite (parse_digit_valid ut c d Hbits Ec).
-      destruct (d <? base) eqn:Elt.
-      * replace (d >=? base) with false by lia.
-        destruct (accumulate_nc_ok ut base v d Hs Hw Hb Hv ltac:(lia)) as [v' [Hv' Hr]]. rewrite Hv'. cbn [rbind].
-        destruct (IH (S pos) v' Hr) as [v'' Hv'']. exists v''. rewrite Hv''. cbn [length]. f_equal. f_equal. lia.
-      * replace (d >=? base) with true by lia. exists v. cbn [length]. f_equal. f_equal. lia.
-    + rewrite (parse_digit_invalid ut c Ec). replace (imax ut >=? base) with true by lia.
-      exists v. cbn [length]. f_equal. f_equal. lia.
-Qed.
-
+(* the second pass (check_overflow = false) ends behind the whole digit run *)
 Lemma to_integer_nc_end ut base s d ds : sgn ut = false -> cxx_width (bits ut) -> 2 <= base <= 36 ->
   take_digits base s = d :: ds ->
-  exists v, to_integer_nc_m ut s base = Ok (length (d :: ds), TiNone, v).
+  exists v, to_integer_nc_m ut false false s base = Ok (length (d :: ds), TiNone, v).
 Proof.
-  intros Hs Hw Hb Hd. assert (Hbits : 8 <= bits ut) by (destruct Hw; lia).
-  destruct s as [|c r]; [discriminate|].
-  cbn [take_digits] in Hd. unfold to_integer_nc_m.
-  destruct (char_digit c) as [d0|] eqn:Ec; [|discriminate].
-  pose proof (char_digit_range c d0 Ec) as Hr.
-  destruct (d0 <? base) eqn:Elt; [|discriminate].
-  inversion Hd; subst d0 ds. clear Hd.
-  rewrite (parse_digit_valid ut c d ltac:(lia) Ec).
-  rewrite (abs_ok ut d ltac:(lia) ltac:(lia)). cbn [rbind].
-  rewrite Z.abs_eq by lia. rewrite (cast_id ut d ltac:(lia)) by (apply in_ty_small; lia).
-  replace (d >=? base) with false by lia.
-  assert (Hd2 : 0 <= d < 2 ^ bits ut).
-  { pose proof (pow2_mono 8 (bits ut) ltac:(lia)) as Hm. change (2 ^ 8) with 256 in Hm. lia. }
-  destruct (ti_loop_nc_end ut base Hs Hw Hb r 1%nat d Hd2) as [v Hv]. rewrite Hv. cbn [rbind fst snd length].
-  exists v. reflexivity.
+  intros Hs Hw Hb Hd. rewrite (to_integer_nc_unsigned ut false false s base Hs Hw Hb).
+  unfold nc_unsigned_spec. cbn [andb].
+  replace (match s with [] => s | _ :: _ => s end) with s by (destruct s; reflexivity).
+  rewrite Hd. eexists. f_equal. f_equal. f_equal. lia.
 Qed.
 
 (** * from the digits on *)
